@@ -236,7 +236,11 @@ def main(argv):
         return cmd_bounded(argv[1], argv[2], argv[3])
     if argv[0] == 'custom':
         mod = importlib.import_module(argv[1])
-        return getattr(mod, argv[2])(*argv[3:])
+        t0 = time.time()
+        out = getattr(mod, argv[2])(*argv[3:])
+        out.setdefault('wall_s', round(time.time() - t0, 2))
+        print(json.dumps(out))
+        return 1 if out.get('fail') else 0
     raise SystemExit('usage')
 
 
